@@ -330,7 +330,7 @@ prop('C15',
      level_text='Bounded model checking of the code-root clause for single-chunk code at every padding class. The other clauses of C15 are outside the claim (partial).',
      level_note='Trusted: Kani/CBMC/cadical; TOY hash parametricity. Partial claim.')
 
-prop('C35', wip=True,
+prop('C35',
      builds=[dict(crate='vm', filters=['c35_'])],
      default=dict(mem=6, timeout={'quick': 900, 'thorough': 2400}, cbmc_extra=FS, unwindset=['memcmp.0:34']),
      min_harnesses={'quick': 7, 'thorough': 7},
@@ -388,10 +388,10 @@ prop('C07', wip=True,
      level_text='Bounded model checking of the registry-key kernel (next() total on writable keys, increments, wraps MAX_WRITABLE to ZERO, never yields the reserved key; conversions mutually inverse) and of the compress/decompress round trip for policies, upgrade purposes and outputs: every non-skipped field comes back unchanged, skipped (malleable) fields come back as defaults.',
      level_note='Trusted: Kani/CBMC/cadical. Partial claim (key kernel + element round trips; inputs and whole transactions out).')
 
-prop('C27', wip=True,
-     builds=[dict(crate='vm', filters=['c27_'])],
+prop('C27',
+     builds=[dict(crate='vm', filters=['c27_', 'c30_tr_internal_unlisted'])],
      default=dict(mem=8, timeout={'quick': 900, 'thorough': 2400}, cbmc_extra=FS, unwindset=['memcmp.0:70']),
-     min_harnesses={'quick': 6, 'thorough': 6},
+     min_harnesses={'quick': 7, 'thorough': 7},
      functions_encoded=['<Script as ExecutableTransaction>::{update_outputs, replace_variable_output}', 'interpreter::contract::{balance, balance_increase, balance_decrease}', '<op::TR as Execute>::execute, Interpreter::transfer, TransferCtx::transfer (contract context)',
                         'internal::{internal_contract, current_contract}', 'Normal::check_contract_in_inputs', 'ReceiptsCtx::push', 'gas::gas_charge',
                         '<MemoryStorage as ContractsAssetsStorage>::{contract_asset_id_balance, _insert, _replace}'],
@@ -404,7 +404,7 @@ prop('C27', wip=True,
      level_text='One-step bounded model checking of the contract-balance kernel and of the TR instruction in a contract context against the local conservation equation: the source loses exactly what the destination gains, deficits and overflows panic instead of wrapping, the receipt carries the moved amount, bystander balances never change.',
      level_note='Trusted: Kani/CBMC/cadical, split_registers model. Partial claim (contract-to-contract transfers).')
 
-prop('C30', wip=True,
+prop('C30',
      builds=[dict(crate='vm', filters=['c30_', 'c27_tr_internal'])],
      overrides=[(r'c27_tr_internal_self$', dict(skip=True))],
      default=dict(mem=8, timeout={'quick': 900, 'thorough': 2400}, cbmc_extra=FS, unwindset=['memcmp.0:70']),
@@ -432,9 +432,9 @@ prop('C32',
      level_text='Bounded model checking of the debugger kernel: a location is reported unless the last reported state is a break at exactly that location, the last state is consumed, never reported without breakpoints; (thorough) a reported event executes nothing and a suppressed one executes the instruction exactly as without a debugger.',
      level_note='Trusted: Kani/CBMC/cadical. Partial claim (single-stepping kernel; breakpoint sets out).')
 
-prop('C17', wip=True,
+prop('C17',
      builds=[dict(crate='vm', filters=['c17_'])],
-     default=dict(mem=10, timeout={'quick': 1200, 'thorough': 2400}),
+     default=dict(mem=16, timeout={'quick': 1200, 'thorough': 2400}),
      min_harnesses={'quick': 3, 'thorough': 3},
      functions_encoded=['<op::ECK1 as Execute>::execute, Interpreter::secp256k1_recover, crypto::secp256k1_recover', '<op::ECR1 as Execute>::execute, Interpreter::secp256r1_recover, crypto::secp256r1_recover', '<op::ED19 as Execute>::execute, Interpreter::ed25519_verify, crypto::ed25519_verify',
                         'MemoryInstance::{read_bytes, read, write_bytes}, OwnershipRegisters::verify_ownership', 'set_err / clear_err / inc_pc'],
@@ -496,10 +496,11 @@ prop('C05', wip=True,
 
 prop('C06', wip=True,
      builds=[dict(crate='ext', filters=['c06_'])],
-     default=dict(mem=10, timeout={'quick': 900, 'thorough': 2400}, cbmc_extra=FS),
-     min_harnesses={'quick': 9, 'thorough': 9},
+     default=dict(mem=10, timeout={'quick': 900, 'thorough': 2400}, cbmc_extra=FS, unwindset=['memcmp.0:70']),
+     overrides=[(r'c06_policies_postcard_(legacy_all4|legacy_tip|expiration|owner_maxfee|all)$', dict(tier='thorough', attempt=True, mem=24, timeout=1500))],
+     min_harnesses={'quick': 4, 'thorough': 9},
      functions_encoded=['<Policies as serde::Serialize>::serialize, <Policies as serde::Deserialize>::deserialize (hand-written, legacy vs compact layout)', 'postcard::{to_allocvec, from_bytes}, bincode::{serialize, deserialize} (real)', 'Policies::{get, set, bits}'],
-     bounds=['policy masks {none, tip, maturity, all four legacy policies, expiration, owner, owner+max-fee, all six} as harness constants (the mask fixes the value-vector length); all values symbolic (maturity / expiration: u32, the documented validity)'],
+     bounds=['bincode (fixed-width integers): masks {maturity (legacy layout), owner (compact layout), all six} as harness constants, all values symbolic (maturity / expiration: u32, the documented validity)', 'postcard: the empty mask; masks with values are thorough-tier attempts (postcard varints make the encoded length depend on the symbolic values: out of memory at 10 GB)'],
      assumptions=['Result::{expect,unwrap} replaced by non-formatting models (K2)'],
      out_of_claim=['serde_json (decimal/float/string formatting: each u64 is a data-dependent digit loop, the textbook explosion case for bounded symbolic execution)', 'transactions, receipts, consensus parameters and gas cost tables (serde_derive-generated impls, mechanical)',
                    'UpgradeMetadata::compute: postcard decoding of a whole ConsensusParameters value plus SHA-256 checksum', 'the other 55 masks'],
